@@ -172,6 +172,12 @@ if P and P.get('kind') == 'sched':
     TRACED_FUNCS = {('lexer.py', 'scanner'), ('lexer.py', 'search_scanner'), ('lexer.py', '_build_scanner'), ('lexer.py', 'next_token'), ('lexer.py', 'match'),
                     ('lexer.py', '_get_width'), ('lexer.py', 'min_width'), ('lexer.py', 'max_width'), ('lark.py', '_build_lexer'), ('lexer.py', 'search_start'),
                     ('tree_matcher.py', 'match_tree'), ('lark.py', '_get_parser')}
+    if P.get('traceset') == 'forest':
+        # the Earley forest-to-tree phase: per-parse objects today; any state shared between parses here is a race
+        TRACED_FUNCS = {('earley_forest.py', n) for n in ('visit', 'transform', 'transform_symbol_node', 'transform_intermediate_node', 'transform_packed_node',
+                                                           'visit_symbol_node_in', 'visit_packed_node_in', 'visit_packed_node_out', 'visit_symbol_node_out',
+                                                           'visit_token_node', '_visit_node_out_helper', '_call_rule_func', '_collapse_ambig', 'on_cycle')}
+        TRACED_FUNCS |= {('earley.py', 'parse'), ('parse_tree_builder.py', '__call__')}
     GAPS = P.get('gaps', [12, 12])
     PIN1 = P.get('pin1')
 
@@ -183,6 +189,10 @@ if P and P.get('kind') == 'sched':
             return Lark(G_PLAIN, parser='lalr', lexer='basic', lexer_callbacks={'NAME': _cb, 'NUM': lambda t: t.update(value='#' + t.value)})
         if SCFG == 'ctx-callbacks':
             return Lark(G_PLAIN, parser='lalr', lexer='contextual', lexer_callbacks={'NAME': _cb})
+        if SCFG == 'earley-dynamic':
+            return Lark(G_PLAIN, parser='earley', lexer='dynamic')
+        if SCFG == 'earley-explicit':
+            return Lark(G_PLAIN, parser='earley', lexer='dynamic', ambiguity='explicit')
         return Lark(G_PLAIN, parser='earley', lexer='basic', lexer_callbacks={'NAME': _cb})
     CALLS = [('parse', 'x = 7 ;'), ('parse', 'if a : b = c + 2 ;'), ('lex', 'x = y ;')]
 
@@ -327,21 +337,24 @@ def plan(tier, seed):
                            'params': {'kind': 'hist', 'cfg': cfg, 'pin': pin, 'maxops': 3 if quick else 4, 'nprobes': 10}, 'mode': 'realised', 'timeout': 400 if quick else 3000,
                            'twin': pin == 7 and cfg == 'lalr-basic', 'bound': {'ops': 3 if quick else 4, 'op_kinds': 8, 'probes': 10}})
     # schedules: (configuration, pair of first calls, gap windows between consecutive context switches, in line steps)
-    plans = [('basic-callbacks', [0, 1], [8, 40, 3]), ('basic-callbacks', [0, 2], [8, 40, 3]), ('basic-callbacks', [0, 1], [24, 24]),
+    plans = [('earley-dynamic', [0, 1], [60], 'forest'), ('earley-callbacks', [1, 0], [60, 20], 'forest'), ('earley-explicit', [0, 1], [60], 'forest'),
+             ('basic-callbacks', [0, 1], [8, 40, 3]), ('basic-callbacks', [0, 2], [8, 40, 3]), ('basic-callbacks', [0, 1], [24, 24]),
              ('ctx-callbacks', [0, 1], [10, 30, 3]), ('ctx-callbacks', [1, 2], [24, 24]), ('earley-callbacks', [0, 1], [8, 40, 3])]
     if not quick:
         plans += [('basic-callbacks', [0, 1], [12, 45, 12]), ('basic-callbacks', [2, 2], [12, 45, 12]), ('ctx-callbacks', [0, 1], [12, 45, 12]),
                   ('earley-callbacks', [0, 2], [12, 45, 12]), ('basic-callbacks', [0, 1], [6, 30, 4, 6])]
-    for cfg, pair, gaps in plans:
+    for pl in plans:
+        cfg, pair, gaps = pl[:3]
+        traceset = pl[3] if len(pl) > 3 else 'lexer'
         npaths = 1
         for g in gaps:
             npaths *= g
         pins = [None] if npaths * 0.07 < (150 if quick else 1500) else list(range(gaps[0]))
         for pin in pins:
-            slices.append({'id': 'sched:%s:calls%s:gaps%s%s' % (cfg, pair, gaps, '' if pin is None else ':first%d' % pin), 'func': 'sched', 'mode': 'realised',
-                           'params': {'kind': 'sched', 'cfg': cfg, 'pair': pair, 'gaps': gaps, 'pin1': pin}, 'timeout': 600 if quick else 3000,
+            slices.append({'id': 'sched:%s:%s:calls%s:gaps%s%s' % (cfg, traceset, pair, gaps, '' if pin is None else ':first%d' % pin), 'func': 'sched', 'mode': 'realised',
+                           'params': {'kind': 'sched', 'cfg': cfg, 'pair': pair, 'gaps': gaps, 'pin1': pin, 'traceset': traceset}, 'timeout': 600 if quick else 3000,
                            'twin': pin in (None, 0) and gaps == [8, 40, 3] and pair == [0, 1] and cfg == 'basic-callbacks',
-                           'bound': {'context_switches': len(gaps), 'threads': 2, 'granularity': 'line steps of the shared-state functions', 'gap_windows': gaps}})
+                           'bound': {'context_switches': len(gaps), 'threads': 2, 'granularity': 'line steps of the %s functions' % ('Earley forest-to-tree' if traceset == 'forest' else 'shared-state lexer'), 'gap_windows': gaps}})
     meta = {
         'rule': 'hist: one path per (operation sequence, probe); sched: one path per (switch positions, pair of calls)',
         'technique': 'CrossHair symbolic execution of call histories on one instance; CrossHair-enumerated preemption-bounded thread schedules over a line-level stepper',
